@@ -10,7 +10,7 @@
           both paths agree; `Joiner` refines the specification for every representation of the operands.
   Part 5: nest / unnest (`Reduce`) and rank refine their specifications.
 -/
-import Arrai.C04.LemmasNest
+import Arrai.C04.LemmasUnnest
 
 namespace Arrai.C04.Theorems
 open Arrai.C04 Arrai.C04.Spec Arrai.C04.Impl
@@ -122,7 +122,7 @@ theorem positional_path_refines (op : JoinOp) (r1 r2 : Relation) (w1 : RelWF r1)
     ∃ res, relationJoin r1 r2 (intersect r1.attrs r2.attrs)
         (partitionNames op r1.attrs r2.attrs (intersect r1.attrs r2.attrs)).1
         (partitionNames op r1.attrs r2.attrs (intersect r1.attrs r2.attrs)).2 = .ok res ∧
-      den res = Spec.join op (den (.relation r1)) (den (.relation r2)) :=
+      den res = Spec.join op (den (.relation r1)) (den (.relation r2)) ∧ RepOK res :=
   relationJoin_refines op r1 r2 w1 w2
 
 /-- the positional and the generic path agree whenever both apply -/
@@ -131,16 +131,28 @@ theorem join_paths_agree (op : JoinOp) (r1 r2 : Relation) (w1 : RelWF r1) (w2 : 
         (partitionNames op r1.attrs r2.attrs (intersect r1.attrs r2.attrs)).1
         (partitionNames op r1.attrs r2.attrs (intersect r1.attrs r2.attrs)).2 = .ok r ∧
       genericPath op (.relation r1) (.relation r2) = .ok r' ∧ den r = den r' := by
-  obtain ⟨r, hr, e⟩ := relationJoin_refines op r1 r2 w1 w2
+  obtain ⟨r, hr, e, _⟩ := relationJoin_refines op r1 r2 w1 w2
   obtain ⟨r', hr', e'⟩ := genericPath_refines op (.relation r1) (.relation r2) r1.attrs r2.attrs w1 w2 rfl rfl
   exact ⟨r, r', hr, hr', by rw [e, e']⟩
 
 /-- `A op B` for each of the eight operators: `Joiner` returns a value (never an error, never a panic) that
-denotes the specified set, for well-formed operands of every representation -/
+denotes the specified set, for well-formed operands of every representation; the result is again a
+well-formed operand with a heading (`RepOK`), so the theorem chains through nested joins -/
 theorem join_refines (op : JoinOp) (a b : Rep) (aN bN : Names) (wa : RepWF a) (wb : RepWF b)
     (ha : relationAttrs a = some aN) (hb : relationAttrs b = some bN) :
-    ∃ res, joiner op a b = .ok res ∧ den res = Spec.join op (den a) (den b) :=
+    ∃ res, joiner op a b = .ok res ∧ den res = Spec.join op (den a) (den b) ∧ RepOK res :=
   joiner_refines op a b aN bN wa wb ha hb
+
+/-- two joins in a row, `(A op₁ B) op₂ C`, in one statement -/
+theorem join_refines_chain (op1 op2 : JoinOp) (a b c : Rep) (ha : RepOK a) (hb : RepOK b) (hc : RepOK c) :
+    ∃ r1 res, joiner op1 a b = .ok r1 ∧ joiner op2 r1 c = .ok res ∧
+      den res = Spec.join op2 (Spec.join op1 (den a) (den b)) (den c) ∧ RepOK res := by
+  obtain ⟨wa, aN, ea⟩ := ha
+  obtain ⟨wb, bN, eb⟩ := hb
+  obtain ⟨wc, cN, ec⟩ := hc
+  obtain ⟨r1, h1, d1, w1, N1, e1⟩ := joiner_refines op1 a b aN bN wa wb ea eb
+  obtain ⟨res, h2, d2, ok2⟩ := joiner_refines op2 r1 c N1 cN w1 wc e1 ec
+  exact ⟨r1, res, h1, h2, by rw [d2, d1], ok2⟩
 
 -- the hypotheses are satisfiable by a non-trivial pair (permuted columns, a sugar heading on the right)
 example : ∃ r1 ps, RepWF (.relation r1) ∧ RepWF (.seq .item ps) ∧ r1.rows.length = 2 ∧ ps.length = 2 :=
@@ -169,6 +181,15 @@ theorem nest_refines (a : Rep) (relAttrs attrs : Names) (attr : String) (wa : Re
     ∃ res, Impl.nest a relAttrs attrs attr = .ok res ∧ den res = Spec.nest (den a) attrs attr :=
   Arrai.C04.nest_refines a relAttrs attrs attr wa ha hsub hclash
 
+/-- `R nest |attrs| n` and the inverse form `R nest ~|attrs| n` as evaluated (`NestExpr.Eval`, as repaired) -/
+theorem nestExpr_refines (inverse : Bool) (a : Rep) (relAttrs attrs : Names) (attr : String) (wa : RepWF a)
+    (ha : relationAttrs a = some relAttrs) (hsub : isSubset attrs relAttrs = true)
+    (hne : inverse = true → (minus relAttrs attrs).isEmpty = false)
+    (hclash : (minus relAttrs (if inverse then minus relAttrs attrs else attrs)).contains attr = false) :
+    ∃ res, nestExpr inverse a attrs attr = .ok res ∧
+      den res = Spec.nest (den a) (if inverse then minus relAttrs attrs else attrs) attr :=
+  Arrai.C04.nestExpr_refines inverse a relAttrs attrs attr wa ha hsub hne hclash
+
 /-- the ranking loop: after sorting by the key, every entry is given the number of entries with a strictly
 smaller key -/
 theorem rank_refines (es : List Entry) (attr : String) :
@@ -188,13 +209,13 @@ theorem rank_refines_partial (es : List Entry) (rs : List String) :
       e'.input = rankedInput es rs e.ranker e.input :=
   ⟨foldl_rankPass_length rs es, foldl_rankPass_spec es rs es (fun _ _ => rfl)⟩
 
-/-- stated, not proved in general (the loop-level theorems above and the correspondence run cover it):
-`Rank` on a representation denotes `Spec.rank` -/
-def rank_refines_full : Prop :=
-  ∀ (a : Rep) (relAttrs : Names) (keys : List (String × String)),
-    RepWF a → relationAttrs a = some relAttrs → (enumerate a).Nodup → (keys.map (·.1)).Nodup →
-    (∀ rk ∈ keys, relAttrs.contains rk.2 = true) →
-    ∃ res, Impl.rank a keys = .ok res ∧ den res = Spec.rank (den a) keys
+/-- `R rank (r₁: .k₁, …)` on a representation (`Rank`: entries, one sorting pass per rank attribute, SetBuilder)
+denotes the specification: every row gains, per `(r, k)`, the number of rows with a strictly smaller `k` -/
+theorem rank_refines_rep (a : Rep) (relAttrs : Names) (keys : List (String × String)) (wa : RepWF a)
+    (ha : relationAttrs a = some relAttrs) (hnd : (enumerate a).Nodup)
+    (hkeys : ∀ rk ∈ keys, relAttrs.contains rk.2 = true) :
+    ∃ res, Impl.rank a keys = .ok res ∧ den res = Spec.rank (den a) keys :=
+  rank_rep_refines a relAttrs keys wa ha hnd hkeys
 
 def rankWitness : V :=
   V.mkSet [V.mkTup [("x", .num 1), ("y", .num 0)], V.mkTup [("x", .num 1), ("y", .num 1)],
@@ -209,14 +230,14 @@ theorem rank_refines_witness :
       den res = Spec.rank rankWitness [("r", "x"), ("s", "y")]) := by
   refine ⟨⟨_, rfl, ?_⟩, ⟨_, rfl, ?_⟩⟩ <;> decide
 
-/-- stated, not proved in general: `Unnest` on a representation whose `attr` holds relations that merge
-with the rest of their row denotes `Spec.unnest` -/
-def unnest_refines_full : Prop :=
-  ∀ (a : Rep) (relAttrs : Names) (attr : String),
-    RepWF a → relationAttrs a = some relAttrs → relAttrs.contains attr = true →
-    (∀ x ∈ enumerate a, ∃ ys, get attr (tupOf x) = some (.set ys) ∧
-      ∀ s ∈ ys, CanonT s ∧ (mergeT (V.mkTup ((tupOf x).filter fun p => p.1 ≠ attr)) s).isSome = true) →
-    ∃ res, Impl.unnest a attr = .ok res ∧ den res = Spec.unnest (den a) attr
+/-- `R unnest attr` on a representation (`Unnest`: Reduce keyed by the whole tuple) denotes the specification,
+for rows whose `attr` holds a set of tuples that merge with the rest of the row (anything else is an error
+in the repaired code) -/
+theorem unnest_refines (a : Rep) (relAttrs : Names) (attr : String) (wa : RepWF a)
+    (ha : relationAttrs a = some relAttrs) (hattr : relAttrs.contains attr = true)
+    (hu : Unnestable attr (enumerate a)) :
+    ∃ res, Impl.unnest a attr = .ok res ∧ den res = Spec.unnest (den a) attr :=
+  unnest_rep_refines a relAttrs attr wa ha hattr hu
 
 def unnestWitness : V :=
   V.mkSet [V.mkTup [("a", .num 1), ("n", V.mkSet [V.mkTup [("b", .num 2)], V.mkTup [("b", .num 3)]])],
@@ -229,24 +250,17 @@ theorem unnest_refines_witness :
       den res = rankWitness) := by
   refine ⟨⟨_, rfl, ?_⟩, ⟨_, _, rfl, rfl, ?_⟩⟩ <;> decide
 
-/-- stated, not proved in general: `SingleAttrNest` denotes `Spec.singleNest` -/
-def singleNest_refines_full : Prop :=
-  ∀ (a : Rep) (relAttrs : Names) (attr : String),
-    RepWF a → relationAttrs a = some relAttrs → relAttrs.contains attr = true →
-    ∃ res, Impl.singleAttrNest a relAttrs attr = .ok res ∧ den res = Spec.singleNest (den a) attr
+/-- `R nest a` (`SingleAttrNest`) denotes the specification: the values of `a`, grouped by the other attributes -/
+theorem singleNest_refines (a : Rep) (relAttrs : Names) (attr : String) (wa : RepWF a)
+    (ha : relationAttrs a = some relAttrs) (hattr : relAttrs.contains attr = true) :
+    ∃ res, Impl.singleAttrNest a relAttrs attr = .ok res ∧ den res = Spec.singleNest (den a) attr :=
+  singleNest_rep_refines a relAttrs attr wa ha hattr
 
 /-- `{|x,y| …} nest y` and the inverse form `nest ~|x|n` -/
 theorem singleNest_refines_witness :
     (∃ res, Impl.singleNestExpr (ofV rankWitness) "y" = .ok res ∧ den res = Spec.singleNest rankWitness "y") ∧
     (∃ res, Impl.nestExpr true (ofV rankWitness) ["x"] "n" = .ok res ∧ den res = Spec.nest rankWitness ["y"] "n") := by
   refine ⟨⟨_, rfl, ?_⟩, ⟨_, rfl, ?_⟩⟩ <;> decide
-
-/-- stated, not proved in general: the result of `Joiner` is again a well-formed operand with a heading, so
-`join_refines` chains through nested expressions (the correspondence run exercises nested joins) -/
-def join_result_wf_full : Prop :=
-  ∀ (op : JoinOp) (a b : Rep) (aN bN : Names), RepWF a → RepWF b →
-    relationAttrs a = some aN → relationAttrs b = some bN →
-    ∀ res, joiner op a b = .ok res → RepWF res ∧ ∃ N, relationAttrs res = some N
 
 /-- a chained join with permuted columns, `({|b| (1)} <&> {|a| (2)}) <&> {|a,c| (2,3)}`: the intermediate
 result has heading `[b, a]`, is well-formed, and the final result denotes the specified value -/
